@@ -89,6 +89,8 @@ class Engine:
         self.prog = prog
         self.intrinsics = intrinsics or (lambda eng, t, args: None)
         self.trunc_depth = 4
+        self._div_stack = []
+        self.memo_div = {}
         self.follow = follow or (lambda fn: True)
         self.memo = {}
         self.in_progress = set()
@@ -389,6 +391,8 @@ class Engine:
                     continue
                 if k == "call":
                     if t.get("t") is None:
+                        if self._div_stack:
+                            self._div_stack[-1].add((fn.path, t.get("ln")))
                         break          # diverges (panic)
                     rets = self.do_call(fn, body, env, t)
                     for lcl in list(self.mutably_borrowed):
@@ -547,12 +551,15 @@ class Engine:
         args = tuple(truncate(a, self.trunc_depth) for a in args)
         key = (callee.id, args)
         if key in self.memo:
+            if self._div_stack:
+                self._div_stack[-1] |= self.memo_div.get(key, set())
             return self.memo[key]
         if key in self.in_progress or self.depth > MAX_DEPTH:
             self.imprecise.append((callee.path, "recursion cut"))
             return [TOP]
         self.in_progress.add(key)
         self.depth += 1
+        self._div_stack.append(set())
         try:
             env = {}
             for i, a in enumerate(args):
@@ -561,9 +568,19 @@ class Engine:
         finally:
             self.depth -= 1
             self.in_progress.discard(key)
+            div = self._div_stack.pop()
+            if self._div_stack:
+                self._div_stack[-1] |= div
         out = sorted(rs, key=repr)
         self.memo[key] = out
+        self.memo_div[key] = div
         return out
+
+    def divergences(self, callee, args):
+        """panic sites met while summarising callee(args) (the paths that return nothing)"""
+        self.summary(callee, args)
+        key = (callee.id, tuple(truncate(a, self.trunc_depth) for a in args))
+        return self.memo_div.get(key, set())
 
     # ------------------------------------------------------------ std models
     def std_model(self, fn, t, args):
